@@ -246,6 +246,9 @@ def run():
             add("unary", nm, t.format(v="a"), {"a": s}, ("numpy",))
             if not nm.startswith("np_"):
                 add_sp("unary", nm, t.format(v="a"), {"a": s})
+        # in-place operators of the SymPy backend (its _replace_data re-expresses the result in the operand's own system)
+        for nm, t in (("imul", "a.__imul__(k1)"), ("itruediv", "a.__itruediv__(k1)")):
+            add_sp("unary", nm, t, {"a": s})
     for s1, s2 in itertools.product(srcs, srcs):
         (d1, n1, m1), (d2, n2, m2) = s1, s2
         if d1 != d2 and (n1 != t3.SYS[d1][-1] or n2 != t3.SYS[d2][0]):
@@ -262,6 +265,9 @@ def run():
                 add("binary", nm, t.format(a="a", b="b"), {"a": s1, "b": s2}, pr)
             if not nm.startswith("np_") and (d1 != d2 or n1 == t3.SYS[d1][(len(n2) + d2) % len(t3.SYS[d1])] or n2 == t3.SYS[d2][0] or typed and n1 == t3.SYS[d1][-1]):
                 add_sp("binary", nm, t.format(a="a", b="b"), {"a": s1, "b": s2})
+        if d1 == d2 and not m2 and (n2 == t3.SYS[d2][0] or n2 == t3.SYS[d2][-1] or n1 == n2):
+            for nm, t in (("iadd", "a.__iadd__(b)"), ("isub", "a.__isub__(b)")):
+                add_sp("binary", nm, t, {"a": s1, "b": s2})
     return recs, sp_recs
 
 
